@@ -93,6 +93,8 @@ pub fn specs() -> Vec<PropertySpec> {
                 Plan { engine: "e2", variant: "arte", quick: 3_000, thorough: 80_000, asan: false },
                 Plan { engine: "e2", variant: "c13", quick: 1_000, thorough: 20_000, asan: false },
                 Plan { engine: "e1", variant: "l1", quick: 6_000, thorough: 300_000, asan: false },
+                // histories of the c17 class: inputs renamed between two runs
+                Plan { engine: "e2", variant: "c17", quick: 300, thorough: 5_000, asan: false },
             ],
             rule: "referential integrity on the simulated file system: schema import specifier of every operation declaration / resolvers file, every sources entry and sourceMappingURL, every #import target (CLI diagnostics and the loader's required-file set) for randomised layouts with outputs above, below and beside inputs and several spellings of each import path",
             assumptions: vec!["independent path normaliser (indep.rs)", "TS->JS extension table inverted by the oracle"],
